@@ -227,7 +227,7 @@ def handle : List String → Option String
     let b ← decLenC b
     some (encRes encOptLenC (merge a b))
   | ["intersect", ls] => do
-    let ls ← decListWith ";" decNats ls
+    let ls ← if ls == "-" then some [] else decAll decNats (ls.splitOn ";")
     some (match intersect ls with
       | some l => "ok " ++ encNats l
       | none => "crash:require")
